@@ -13,3 +13,4 @@ pub mod scn_c13;
 pub mod scn_conc;
 pub mod scn_c14;
 pub mod scn_seq;
+pub mod scn_c18;
